@@ -152,7 +152,7 @@ PROPS = {
                 claim="Tag<->SerdeTag conversions proved by Kani for every non-fs tag kind over full value ranges; an arbitrary tag object (all optional fields symbolic) never panics and yields its own kind or the explicit Unknown tag",
                 trusted="CBMC's bit-precise model of the compiled MIR (real code incl. the unsafe new_unchecked calls, no stubs)",
                 technique="Kani loop-free proof harnesses over full-domain symbolic inputs on the real conversion functions (plain harnesses: contract instrumentation is 20x slower on these heap-carrying types)"),
-    "C01": dict(units=["worker", "sources", "actionloop"], level="proof", assumptions=WORKER_ASSUME,
+    "C01": dict(units=["worker", "sources", "actionloop", "fswatch"], level="proof", assumptions=WORKER_ASSUME,
                 claim="throttle_collect proved by Verus: the returned batch is exactly the accepted sub-sequence (urgent, empty or filter-accepted) of the messages it received, never empty; loop invariant over all event streams, verdict sequences and timings",
                 trusted="stand-ins in prelude/worker_env.rs (async_priority_channel receiver, tokio timeout, Changeable throttle, arbitrary filterer, error channel); frame lemmas applied in verified wrappers (units/worker/spec.rs)"),
     "C02": dict(units=["worker", "actionloop", "cfgwatch"], level="proof", assumptions=WORKER_ASSUME + ["wall-clock accuracy of tokio timers is not decided; 'arrive within the window' = received by the worker before the return"],
@@ -280,7 +280,7 @@ PROPS["C10"]["thorough_engines"] = [_hist("supervisor", "urgent_overtakes_normal
 PROPS["C05"]["thorough_engines"] = [script_engine("cli_on_busy.py", "cli_on_busy", "C05.bounded.one_change_mid_run_in_each_mode",
     "the real binary, started through a first change (--postpone), one change 1 s into a 3 s run in each --on-busy-update mode (do-nothing, queue, queue with a second change during the queued run, restart, signal with --signal SIGUSR1): the start/end/term/usr1 history of the command is the documented one and runs never overlap")]
 PROPS["C11"]["thorough_engines"] = [replay_engine("ignorefiles", "globset_rule_bounded", "C11.bounded.verdict_is_the_documented_rule",
-    "the real GlobsetFilterer on 4 configurations x all events of 1..2 paths over 7 file names x 3 file types (1848 events): the verdict equals the documented rule; watched-file and path-less events pass")]
+    "the real GlobsetFilterer on 6 configurations (no patterns; ignores; ignores+filters; +extensions; a negated ignore pattern, alone and with filters+extensions) x all events of 1..2 paths over 7 file names x 3 file types (2772 events): the verdict equals the documented rule; watched-file and path-less events pass")]
 PROPS["C12"]["thorough_engines"] = [script_engine("cli_flag_sources.py", "cli_flag_sources", "C12.bounded.flags_remove_exactly_the_named_sources",
     "10 flag sets x 6 ignore sources (project .gitignore/.ignore, global git/watchexec ignore, --ignore-file, --ignore) on the real binary: each source is honoured exactly when no given flag names it")]
 PROPS["C14"]["thorough_engines"] = [replay_engine("ignorefiles", "discovery_exact_on_a_small_tree", "C14.bounded.discovery_exact_on_a_small_tree",
